@@ -197,4 +197,461 @@ theorem pyInt_digits (ds : Str) (hne : ds ≠ []) (h : ∀ c ∈ ds, isDigit c =
     have hl' : r.length + 1 ≤ maxStrDigits := by simpa using hl
     simp [hl']
 
+theorem bracketMatch_none (s : Str) (h : s.head? ≠ some '[') : bracketMatch s = none := by
+  unfold bracketMatch
+  split
+  · next t => simp at h
+  · rfl
+
+theorem parse_default (s : Str) (d : Int) (hb : bracketMatch s = none) (hl : (splitOn ':' s).length ≠ 2) :
+    parseHostPort s d = .ok (s, d) := by
+  unfold parseHostPort
+  rw [hb]
+  simp only
+  split
+  · next h p heq => rw [heq] at hl; simp at hl
+  · rfl
+
+theorem digits_no_colon (ds : Str) (h : ∀ c ∈ ds, isDigit c = true) : ':' ∉ ds := by
+  intro hc; exact absurd (h ':' hc) (by decide)
+
+theorem bracketMatch_bracket (h r : Str) (hne : h ≠ []) (hb : ']' ∉ h) :
+    bracketMatch ('[' :: h ++ ']' :: r) = afterBracket h r := by
+  have hp : ∀ y ∈ h, (y != ']') = true := by
+    intro y hy; simp; intro e; subst e; exact hb hy
+  have hx : ((']' : Char) != ']') = false := by decide
+  have hnE : h.isEmpty = false := by cases h with | nil => exact absurd rfl hne | cons _ _ => rfl
+  simp only [bracketMatch, List.cons_append]
+  rw [takeWhile_append_stop _ h r ']' hp hx, dropWhile_append_stop _ h r ']' hp hx]
+  simp only [hnE, Bool.false_eq_true, if_false]
+
+/-- a valid TCP port -/
+def InRange (p : Int) : Prop := 1 ≤ p ∧ p ≤ 65535
+
+theorem checkPort_ok (p : Int) (h : InRange p) : checkPort p = .ok p := by
+  unfold checkPort; unfold InRange at h
+  have : ¬ (p < 1 ∨ p > 65535) := by omega
+  simp [this]
+
+theorem checkPort_bad (p : Int) (h : ¬ InRange p) : checkPort p = .error .value := by
+  unfold checkPort; unfold InRange at h
+  have : (p < 1 ∨ p > 65535) := by omega
+  simp [this]
+
+/-- the flags written are `-4` / `-6` -/
+def FlagsOK (flags : List Nat) : Prop := ∀ f ∈ flags, f = 4 ∨ f = 6
+
+theorem mem_requestedOrder (flags : List Nat) (x : Nat) : x ∈ requestedOrder flags ↔ x ∈ flags := by
+  induction flags with
+  | nil => simp [requestedOrder]
+  | cons f r ih =>
+    simp only [requestedOrder, List.mem_cons, List.mem_filter, ih]
+    constructor
+    · rintro (h | ⟨h, _⟩)
+      · exact Or.inl h
+      · exact Or.inr h
+    · intro h
+      by_cases hx : x = f
+      · exact Or.inl hx
+      · rcases h with h | h
+        · exact absurd h hx
+        · exact Or.inr ⟨h, by simpa using hx⟩
+
+theorem requestedOrder_filter (flags : List Nat) (hf : FlagsOK flags) (a b : Nat) (hab : (a = 4 ∧ b = 6) ∨ (a = 6 ∧ b = 4)) :
+    (requestedOrder flags).filter (· != a) = if b ∈ flags then [b] else [] := by
+  induction flags with
+  | nil => simp [requestedOrder]
+  | cons f r ih =>
+    have hr : FlagsOK r := fun x hx => hf x (by simp [hx])
+    have ih := ih hr
+    have hf4 := hf f (by simp)
+    simp only [requestedOrder]
+    by_cases hfa : f = a
+    · subst hfa
+      have hne : b ≠ f := by rcases hab with ⟨h1, h2⟩ | ⟨h1, h2⟩ <;> omega
+      simp only [List.filter_cons, bne_self_eq_false, Bool.false_eq_true, if_false, ih]
+      simp [hne]
+    · have hfb : f = b := by rcases hab with ⟨h1, h2⟩ | ⟨h1, h2⟩ <;> omega
+      subst hfb
+      have h1 : (f != a) = true := by simpa using hfa
+      simp only [List.filter_cons, h1, if_true, List.filter_filter]
+      have : (requestedOrder r).filter (fun x => x != a && x != f) = [] := by
+        rw [List.filter_eq_nil_iff]
+        intro x hx
+        have := hr x ((mem_requestedOrder r x).1 hx)
+        rcases hab with ⟨h1, h2⟩ | ⟨h1, h2⟩ <;> (subst h1 h2; rcases this with h | h <;> simp [h])
+      simp [this]
+
+theorem insBy_pass (le : Nat → Nat → Bool) (x : AddrInfo) (l1 l2 : List AddrInfo) (h : ∀ y ∈ l1, le x.af y.af = false) :
+    insBy le x (l1 ++ l2) = l1 ++ insBy le x l2 := by
+  induction l1 with
+  | nil => rfl
+  | cons y ys ih =>
+    simp only [List.cons_append, insBy, h y (by simp), Bool.false_eq_true, if_false]
+    rw [ih (fun z hz => h z (by simp [hz]))]
+
+theorem insBy_stop (le : Nat → Nat → Bool) (x : AddrInfo) (l : List AddrInfo) (h : ∀ y ∈ l, le x.af y.af = true) :
+    insBy le x l = x :: l := by
+  cases l with
+  | nil => rfl
+  | cons y ys => simp [insBy, h y (by simp)]
+
+/-- sorting a two-family answer: all addresses of the family that sorts first, then all of the other,
+    each group in the resolver's order -/
+theorem sortBy_two (rev : Bool) (l : List AddrInfo) (lo hi : Nat) (hlt : lo < hi) (h : ∀ a ∈ l, a.af = lo ∨ a.af = hi) :
+    sortBy rev l = if rev then l.filter (·.af == hi) ++ l.filter (·.af == lo) else l.filter (·.af == lo) ++ l.filter (·.af == hi) := by
+  induction l with
+  | nil => cases rev <;> rfl
+  | cons x xs ih =>
+    have ih := ih (fun a ha => h a (by simp [ha]))
+    have hx := h x (by simp)
+    have hxs : ∀ a ∈ xs, a.af = lo ∨ a.af = hi := fun a ha => h a (by simp [ha])
+    have step : sortBy rev (x :: xs) = insBy (fun a b => if rev then decide (b ≤ a) else decide (a ≤ b)) x (sortBy rev xs) := rfl
+    rw [step, ih]
+    cases rev with
+    | false =>
+      simp only [Bool.false_eq_true, if_false]
+      rcases hx with hx | hx
+      · have e1 : (x.af == lo) = true := by simp [hx]
+        have e2 : (x.af == hi) = false := by simp [hx]; omega
+        rw [List.filter_cons, List.filter_cons, e1, e2]
+        simp only [if_true, Bool.false_eq_true, if_false, List.cons_append]
+        apply insBy_stop
+        intro y hy
+        simp only [List.mem_append, List.mem_filter] at hy
+        have := hxs y (by rcases hy with hy | hy <;> exact hy.1)
+        simp; omega
+      · have e1 : (x.af == lo) = false := by simp [hx]; omega
+        have e2 : (x.af == hi) = true := by simp [hx]
+        rw [List.filter_cons, List.filter_cons, e1, e2]
+        simp only [if_true, Bool.false_eq_true, if_false]
+        rw [insBy_pass]
+        · congr 1
+          apply insBy_stop
+          intro y hy
+          simp only [List.mem_filter, beq_iff_eq] at hy
+          simp; omega
+        · intro y hy
+          simp only [List.mem_filter, beq_iff_eq] at hy
+          simp; omega
+    | true =>
+      simp only [if_true]
+      rcases hx with hx | hx
+      · have e1 : (x.af == lo) = true := by simp [hx]
+        have e2 : (x.af == hi) = false := by simp [hx]; omega
+        rw [List.filter_cons, List.filter_cons, e1, e2]
+        simp only [if_true, Bool.false_eq_true, if_false]
+        rw [insBy_pass]
+        · congr 1
+          apply insBy_stop
+          intro y hy
+          simp only [List.mem_filter, beq_iff_eq] at hy
+          simp; omega
+        · intro y hy
+          simp only [List.mem_filter, beq_iff_eq] at hy
+          simp; omega
+      · have e1 : (x.af == lo) = false := by simp [hx]; omega
+        have e2 : (x.af == hi) = true := by simp [hx]
+        rw [List.filter_cons, List.filter_cons, e1, e2]
+        simp only [if_true, Bool.false_eq_true, if_false, List.cons_append]
+        apply insBy_stop
+        intro y hy
+        simp only [List.mem_append, List.mem_filter] at hy
+        have := hxs y (by rcases hy with hy | hy <;> exact hy.1)
+        simp; omega
+
+theorem insBy_perm (le : Nat → Nat → Bool) (x : AddrInfo) (l : List AddrInfo) : (insBy le x l).Perm (x :: l) := by
+  induction l with
+  | nil => exact List.Perm.refl _
+  | cons y ys ih =>
+    unfold insBy
+    split
+    · exact List.Perm.refl _
+    · exact (List.Perm.cons y ih).trans (List.Perm.swap x y ys)
+
+theorem sortBy_perm (rev : Bool) (l : List AddrInfo) : (sortBy rev l).Perm l := by
+  induction l with
+  | nil => exact List.Perm.refl _
+  | cons x xs ih => exact (insBy_perm _ x _).trans (List.Perm.cons x ih)
+
+theorem count_le_append_left (c : Char) (a b : Str) : a.count c ≤ (a ++ b).count c := by
+  simp [List.count_append]
+
+theorem isIPv6Addr_colons (a : Str) (h : isIPv6Addr a = true) : 2 ≤ a.count ':' := by
+  by_cases hl : (splitOn ':' a).length < 3
+  · simp [isIPv6Addr, hl] at h
+  · rw [splitOn_length] at hl; omega
+
+theorem splitOn_one (c : Char) (s a : Str) (h : splitOn c s = [a]) : s = a := by
+  induction s generalizing a with
+  | nil => simp [splitOn] at h; exact h.symm
+  | cons x xs ih =>
+    unfold splitOn at h
+    split at h
+    · have := splitOn_ne_nil c xs
+      simp at h
+      exact absurd h.2 this
+    · split at h
+      · next hs => exact absurd hs (splitOn_ne_nil c xs)
+      · next p ps hs =>
+        simp at h
+        obtain ⟨h1, h2⟩ := h
+        subst h2
+        rw [ih p hs, h1]
+
+theorem splitOn_two (c : Char) (s a b : Str) (h : splitOn c s = [a, b]) : s = a ++ c :: b := by
+  induction s generalizing a with
+  | nil => simp [splitOn] at h
+  | cons x xs ih =>
+    unfold splitOn at h
+    split at h
+    · next hx =>
+      simp at h
+      obtain ⟨h1, h2⟩ := h
+      subst h1
+      rw [splitOn_one c xs b h2, hx]; rfl
+    · split at h
+      · next hs => exact absurd hs (splitOn_ne_nil c xs)
+      · next p ps hs =>
+        simp at h
+        obtain ⟨h1, h2⟩ := h
+        subst h2
+        rw [ih p hs, ← h1]; rfl
+
+theorem dropWhile_append_all {α} (p : α → Bool) (a b : List α) (h : ∀ x ∈ a, p x = true) :
+    (a ++ b).dropWhile p = b.dropWhile p := by
+  induction a with
+  | nil => rfl
+  | cons x xs ih =>
+    simp only [List.cons_append, List.dropWhile, h x (by simp)]
+    exact ih (fun y hy => h y (by simp [hy]))
+
+theorem dropWhile_head_false {α} (p : α → Bool) (l : List α) (c : α) (h : l.head? = some c) (hc : p c = false) :
+    l.dropWhile p = l := by
+  cases l with
+  | nil => rfl
+  | cons x xs => simp at h; subst h; simp [List.dropWhile, hc]
+
+/-- what `dropWhile` leaves starts with an element that fails the test -/
+theorem dropWhile_head (p : Char → Bool) (l : Str) : l.dropWhile p = [] ∨ ∃ c r, l.dropWhile p = c :: r ∧ p c = false := by
+  induction l with
+  | nil => exact Or.inl rfl
+  | cons x xs ih =>
+    by_cases hx : p x = true
+    · simp only [List.dropWhile, hx]; exact ih
+    · simp only [Bool.not_eq_true] at hx
+      exact Or.inr ⟨x, xs, by simp [List.dropWhile, hx], hx⟩
+
+theorem dropWhile_snoc (p : Char → Bool) (a : Str) (c : Char) (hc : p c = false) :
+    (a ++ [c]).dropWhile p = a.dropWhile p ++ [c] := by
+  induction a with
+  | nil => simp [List.dropWhile, hc]
+  | cons x xs ih =>
+    by_cases hx : p x = true
+    · simp only [List.cons_append, List.dropWhile, hx]; exact ih
+    · simp only [Bool.not_eq_true] at hx
+      simp [List.dropWhile, hx]
+
+/-- a text without surrounding white space: what `strip()` leaves unchanged -/
+def Trimmed (t : Str) : Prop :=
+  (∃ c, t.head? = some c ∧ pySpace c = false) ∧ (∃ c, t.getLast? = some c ∧ pySpace c = false)
+
+theorem strip_shape (l : Str) : pyStrip l = [] ∨ Trimmed (pyStrip l) := by
+  unfold pyStrip
+  rcases dropWhile_head pySpace l with h | ⟨c, r, h, hc⟩
+  · rw [h]; exact Or.inl rfl
+  · rw [h]
+    have : (c :: r).reverse = r.reverse ++ [c] := by simp
+    rw [this, dropWhile_snoc pySpace r.reverse c hc]
+    right
+    constructor
+    · exact ⟨c, by simp, hc⟩
+    · rcases dropWhile_head pySpace r.reverse with h2 | ⟨d, r2, h2, hd⟩
+      · rw [h2]; exact ⟨c, by simp, hc⟩
+      · rw [h2]; exact ⟨d, by rw [List.getLast?_reverse]; rfl, hd⟩
+
+/-- white space around a trimmed text (or around nothing) is removed, the text itself is kept -/
+theorem strip_decor (pre body post : Str) (hpre : ∀ c ∈ pre, pySpace c = true) (hpost : ∀ c ∈ post, pySpace c = true)
+    (hb : body = [] ∨ Trimmed body) : pyStrip (pre ++ body ++ post) = body := by
+  unfold pyStrip
+  rw [List.append_assoc, dropWhile_append_all pySpace pre _ hpre]
+  rcases hb with hb | ⟨⟨c, hc, hcs⟩, ⟨d, hd, hds⟩⟩
+  · subst hb
+    simp [dropWhile_all pySpace post hpost]
+  · rw [dropWhile_head_false pySpace (body ++ post) c (by cases body with | nil => simp at hc | cons x xs => simpa using hc) hcs]
+    rw [List.reverse_append, dropWhile_append_all pySpace post.reverse _ (fun x hx => hpost x (by simpa using hx))]
+    rw [dropWhile_head_false pySpace body.reverse d (by rw [List.head?_reverse]; exact hd) hds]
+    simp
+
+theorem strip_trimmed (t : Str) (h : Trimmed t) : pyStrip t = t := by
+  have := strip_decor [] t [] (by simp) (by simp) (Or.inr h)
+  simpa using this
+
+/-- the targets found in the rest of a file, given whether the previous character was a `\r` -/
+def targetsFrom (prevCR : Bool) (s : Str) : List Str := cleanLines (splitKeep (univNl prevCR s))
+
+theorem pyStrip_nl : pyStrip ['\n'] = [] := by decide
+
+theorem cleanLines_cons (l : Str) (ls : List Str) :
+    cleanLines (l :: ls) = (if pyStrip l != [] then [pyStrip l] else []) ++ cleanLines ls := by
+  unfold cleanLines
+  by_cases h : (pyStrip l != []) = true <;> simp [h]
+
+/-- a `\n` right after a `\r` is swallowed; otherwise it is an empty line: no target either way -/
+theorem targetsFrom_prev (s : Str) : targetsFrom true s = targetsFrom false s := by
+  cases s with
+  | nil => rfl
+  | cons c r =>
+    unfold targetsFrom
+    by_cases h1 : c = '\r'
+    · simp [univNl, h1]
+    · by_cases h2 : c = '\n'
+      · subst h2
+        have : univNl false ('\n' :: r) = '\n' :: univNl false r := by simp [univNl]
+        rw [this]
+        have : univNl true ('\n' :: r) = univNl false r := by simp [univNl]
+        rw [this]
+        simp [splitKeep, cleanLines_cons, pyStrip_nl]
+      · simp [univNl, h1, h2]
+
+/-- no line break inside -/
+def NoBreak (w : Str) : Prop := '\n' ∉ w ∧ '\r' ∉ w
+
+theorem univNl_noBreak (w rest : Str) (b : Bool) (hw : NoBreak w) (hne : w ≠ []) :
+    univNl b (w ++ rest) = w ++ univNl false rest := by
+  induction w generalizing b with
+  | nil => exact absurd rfl hne
+  | cons c r ih =>
+    have h1 : c ≠ '\r' := fun e => hw.2 (by simp [e])
+    have h2 : c ≠ '\n' := fun e => hw.1 (by simp [e])
+    have hr : NoBreak r := ⟨fun e => hw.1 (by simp [e]), fun e => hw.2 (by simp [e])⟩
+    simp only [List.cons_append, univNl, h1, h2, if_false]
+    cases r with
+    | nil => rfl
+    | cons d r' => rw [ih false hr (by simp)]
+
+theorem univNl_noBreak' (w rest : Str) (hw : NoBreak w) : univNl false (w ++ rest) = w ++ univNl false rest := by
+  cases w with
+  | nil => rfl
+  | cons c r => exact univNl_noBreak (c :: r) rest false hw (by simp)
+
+theorem splitKeep_line (w Y : Str) (hw : '\n' ∉ w) : splitKeep (w ++ '\n' :: Y) = (w ++ ['\n']) :: splitKeep Y := by
+  induction w with
+  | nil => simp [splitKeep]
+  | cons c r ih =>
+    have h2 : c ≠ '\n' := fun e => hw (by simp [e])
+    have hr : '\n' ∉ r := fun e => hw (by simp [e])
+    simp only [List.cons_append, splitKeep, h2, if_false]
+    rw [ih hr]
+
+theorem splitKeep_last (w : Str) (hw : '\n' ∉ w) (hne : w ≠ []) : splitKeep w = [w] := by
+  induction w with
+  | nil => exact absurd rfl hne
+  | cons c r ih =>
+    have h2 : c ≠ '\n' := fun e => hw (by simp [e])
+    have hr : '\n' ∉ r := fun e => hw (by simp [e])
+    simp only [splitKeep, h2, if_false]
+    cases r with
+    | nil => rfl
+    | cons d r' => rw [ih hr (by simp)]
+
+/-- a line ending of a text file -/
+def Eol (e : Str) : Prop := e = ['\n'] ∨ e = ['\r', '\n'] ∨ e = ['\r']
+
+/-- indentation / trailing blanks: white space other than line breaks -/
+def Blanks (w : Str) : Prop := ∀ c ∈ w, pySpace c = true ∧ c ≠ '\n' ∧ c ≠ '\r'
+
+/-- one line of a targets file: optional indentation, a target text or nothing, optional trailing
+    blanks, (for all but possibly the last line) a line ending -/
+structure Line where
+  pre : Str
+  body : Str
+  post : Str
+
+def Line.ok (l : Line) : Prop := Blanks l.pre ∧ Blanks l.post ∧ (l.body = [] ∨ (Trimmed l.body ∧ NoBreak l.body))
+def Line.text (l : Line) : Str := l.pre ++ l.body ++ l.post
+def Line.targets (l : Line) : List Str := if l.body = [] then [] else [l.body]
+
+theorem Line.noBreak (l : Line) (h : l.ok) : NoBreak l.text := by
+  obtain ⟨h1, h2, h3⟩ := h
+  have hb : NoBreak l.body := by
+    rcases h3 with h3 | h3
+    · rw [h3]; exact ⟨by simp, by simp⟩
+    · exact h3.2
+  unfold Line.text
+  constructor
+  · intro hc
+    simp only [List.mem_append] at hc
+    rcases hc with (hc | hc) | hc
+    · exact (h1 _ hc).2.1 rfl
+    · exact hb.1 hc
+    · exact (h2 _ hc).2.1 rfl
+  · intro hc
+    simp only [List.mem_append] at hc
+    rcases hc with (hc | hc) | hc
+    · exact (h1 _ hc).2.2 rfl
+    · exact hb.2 hc
+    · exact (h2 _ hc).2.2 rfl
+
+theorem Line.strip_text (l : Line) (h : l.ok) (tail : Str) (ht : ∀ c ∈ tail, pySpace c = true) :
+    pyStrip (l.text ++ tail) = l.body := by
+  obtain ⟨h1, h2, h3⟩ := h
+  have := strip_decor l.pre l.body (l.post ++ tail) (fun c hc => (h1 c hc).1)
+    (fun c hc => by
+      simp only [List.mem_append] at hc
+      rcases hc with hc | hc
+      · exact (h2 c hc).1
+      · exact ht c hc)
+    (by rcases h3 with h3 | h3
+        · exact Or.inl h3
+        · exact Or.inr h3.1)
+  simpa [Line.text, List.append_assoc] using this
+
+theorem targetsFrom_line (l : Line) (e rest : Str) (h : l.ok) (he : Eol e) :
+    targetsFrom false (l.text ++ e ++ rest) = l.targets ++ targetsFrom false rest := by
+  have hnb := l.noBreak h
+  have key : ∃ b, univNl false (l.text ++ e ++ rest) = l.text ++ '\n' :: univNl b rest := by
+    rw [List.append_assoc, univNl_noBreak' l.text _ hnb]
+    rcases he with he | he | he <;> subst he
+    · exact ⟨false, by simp [univNl]⟩
+    · exact ⟨false, by simp [univNl]⟩
+    · exact ⟨true, by simp [univNl]⟩
+  obtain ⟨b, hb⟩ := key
+  have hb' : targetsFrom b rest = targetsFrom false rest := by
+    cases b with
+    | false => rfl
+    | true => exact targetsFrom_prev rest
+  unfold targetsFrom at hb' ⊢
+  rw [hb, splitKeep_line _ _ hnb.1, cleanLines_cons, hb']
+  have hs : pyStrip (l.text ++ ['\n']) = l.body := l.strip_text h ['\n'] (by intro c hc; simp at hc; subst hc; decide)
+  rw [hs]
+  unfold Line.targets
+  by_cases hbody : l.body = [] <;> simp [hbody]
+
+theorem targetsFrom_last (l : Line) (h : l.ok) : targetsFrom false l.text = l.targets := by
+  have hnb := l.noBreak h
+  unfold targetsFrom
+  by_cases hne : l.text = []
+  · have : l.body = [] := by
+      unfold Line.text at hne
+      simp only [List.append_eq_nil_iff] at hne
+      exact hne.1.2
+    rw [hne]; simp [univNl, splitKeep, cleanLines, Line.targets, this]
+  · have h0 := univNl_noBreak' l.text [] hnb
+    simp only [List.append_nil] at h0
+    have h00 : univNl false [] = [] := rfl
+    rw [h00, List.append_nil] at h0
+    rw [h0, splitKeep_last _ hnb.1 hne, cleanLines_cons]
+    have hs : pyStrip l.text = l.body := by
+      have := l.strip_text h [] (by simp)
+      simpa using this
+    rw [hs]
+    unfold Line.targets
+    by_cases hbody : l.body = [] <;> simp [hbody, cleanLines]
+
+/-- the text of a file: terminated lines, then a last line that may lack its line ending -/
+def render : List (Line × Str) → Line → Str
+  | [], last => last.text
+  | (l, e) :: ls, last => l.text ++ e ++ render ls last
+
 end SshAudit.Target
